@@ -234,7 +234,7 @@ func judgeC10(sc Scenario) (key, msg string, nontrivial bool) {
 			}
 			// at the end: not registered => no completed connection registered
 			if status == "unreg" {
-				if f.Completed(x, y) && !f.Nodes[x].Down {
+				if f.Completed(x, y) && !f.Nodes[x].IsDown() {
 					return "C10/connected-while-unregistered", fmt.Sprintf("hub %d still has a completed connection to hub %d although the SKI is not registered (any more). Ops %+v%s", x, y, opsBrief(r.Ops), f.Describe(10)), nontrivial
 				}
 			}
@@ -267,7 +267,7 @@ func judgeC11b(sc Scenario) (key, msg string, nontrivial bool) {
 		return "inconclusive", "did not settle", false
 	}
 	for x := 0; x < sc.N; x++ {
-		if f.Nodes[x].Down {
+		if f.Nodes[x].IsDown() {
 			continue
 		}
 		for y := 0; y < sc.N; y++ {
@@ -295,7 +295,7 @@ func judgeC11b(sc Scenario) (key, msg string, nontrivial bool) {
 			if nd > relays {
 				return "C11/more-disconnects-than-connections", fmt.Sprintf("hub %d reported %d disconnects of hub %d but only %d connections ever existed between them%s", x, nd, y, relays, f.Describe(12)), nontrivial
 			}
-			if comp && !f.Nodes[y].Down && !f.Completed(y, x) {
+			if comp && !f.Nodes[y].IsDown() && !f.Completed(y, x) {
 				return "C11/one-sided-connection", fmt.Sprintf("hub %d has a completed registered connection to hub %d, but hub %d has none to hub %d%s", x, y, y, x, f.Describe(12)), nontrivial
 			}
 		}
